@@ -137,6 +137,8 @@ fn err_s(e: &ScriptError) -> String {
         | ScriptError::InvalidQuotesLocation(m)
         | ScriptError::EmptyLabel(m)
         | ScriptError::UnknownPreProcessorCommand(m) => (m.line.unwrap_or(0), m.source.clone()),
+        #[allow(unreachable_patterns)]
+        _ => (0, None),
     };
     format!("ERR {} {} {}", kind, line, opt_s(&source))
 }
